@@ -33,12 +33,20 @@ class AnsiFormatter(Formatter):
             )
 
     def format(self, string, style=None):  # type: (str, Optional[Style]) -> str
-        if style is not None:
-            self._formatter._style_stack.push(StyleConverter.convert(style))
+        if style is None:
+            return self._formatter.colorize(string)
 
-        formatted = self._formatter.colorize(string)
+        self._formatter._style_stack.push(StyleConverter.convert(style))
 
-        if style is not None:
+        try:
+            if self._formatter.FULL_TAG_REGEX.search(string) is None:
+                # Pastel returns a text without any tag as is: decorate it here
+                formatted = self._formatter._apply_current_style(
+                    string.replace("\\<", "<")
+                )
+            else:
+                formatted = self._formatter.colorize(string)
+        finally:
             self._formatter._style_stack.pop()
 
         return formatted
